@@ -121,6 +121,10 @@ def run_arch(ck, arch, prop):
     for f in rng.sample(census_forms, min(len(census_forms), 300)):
         for org in (0, 0xFFF0 - 16, 0x8000):
             progs.append((arch, "@org %d\n %s\n" % (org, f)))
+    # every accepted form written in upper case (it must decode to the same instruction)
+    for f in census_forms:
+        if f.upper() != f:
+            progs.append((arch, "@org %d\n %s\n" % (ORG, f.upper())))
     sprogs = [(arch, s[4]) for s in sweeps]
     allp = progs + sprogs
     icases = [asm_case(a, text=t) for a, t in allp]
@@ -186,6 +190,8 @@ def run_arch(ck, arch, prop):
         org = int(t.split("\n")[0][5:])
         if i < nprog:
             form = t.split("\n")[1].strip()
+            if form.upper() == form and form.lower() != form:
+                form = form.lower()
             written = form.replace("fwd", str(0x1234))
             ck.count("universe:%s" % r.kind)
             if r.ok:
